@@ -40,6 +40,7 @@ type spec struct {
 	DivGuard bool              // emit explicit panic outcome for integer division by zero
 	RetTpl   string            // template applied to a returned value before wrapping ($0), default "$0"
 	Var      string            // when set: translate only the right-hand side of the first `Var := e` inside the function
+	FirstIf  bool              // when set: translate only the condition of the first top-level `if` of the function
 }
 
 var goTypes = map[string]string{"uint64": "UInt64", "int64": "Int64", "int": "Int", "bool": "Bool"}
@@ -513,6 +514,14 @@ func translate(root string, sp *spec) (out string, err error) {
 			continue
 		}
 		t := &tr{sp: sp, fset: fset}
+		if sp.FirstIf {
+			for _, st := range fd.Body.List {
+				if is, ok := st.(*ast.IfStmt); ok && is.Init == nil {
+					return fmt.Sprintf("/-- generated from %s: %s, condition of its first `if` -/\ndef %s %s :=\n  %s\n", sp.File, sp.Func, sp.Lean, sp.Sig, t.boolExpr(is.Cond)), nil
+				}
+			}
+			return "", fmt.Errorf("%s: %s: no top-level `if` found", sp.File, sp.Func)
+		}
 		if sp.Var != "" {
 			var rhs ast.Expr
 			ast.Inspect(fd.Body, func(n ast.Node) bool {
